@@ -81,6 +81,38 @@ def r_compact(idx, rep, rule="R-COMPACT", modules=None, floor=3):
                               "row is written at index `%s` but the kept rows are read back through the counter `%s` "
                               "(%s[:%s]): kept rows are left at stale positions and unwritten rows are returned"
                               % (_first_index(tgt), counter, b, counter), "written at the counter")
+            # SOURCE arrays are read at the loop index: inside a compaction loop (`for i ...: if keep(i): out[n] = f(src[i]); n += 1`) an array that is
+            # read at the loop index somewhere in the loop is parallel to the INPUT; reading it at the output counter pairs row i with the data of an
+            # earlier row as soon as one row has been skipped (identical results until the first skip)
+            for inc in inc_sts:
+                loop = _enclosing(pm, inc, (ast.For,))
+                if loop is None or not isinstance(loop.target, ast.Name) or _enclosing(pm, inc, (ast.If,)) is None:
+                    continue
+                lv = loop.target.id
+                by_loopvar, by_counter = {}, {}
+                for n in ast.walk(loop):
+                    if isinstance(n, ast.Subscript) and isinstance(n.ctx, ast.Load) and isinstance(n.value, (ast.Name, ast.Attribute)):
+                        first = index_elts(n)[0] if index_elts(n) else None
+                        if isinstance(first, ast.Name) and first.id == lv:
+                            by_loopvar.setdefault(u(n.value), n)
+                        elif first is not None and u(first) == counter:
+                            by_counter.setdefault(u(n.value), n)
+                stored_at_counter = {u(n_.value) for n_ in ast.walk(f.node) if isinstance(n_, ast.Subscript) and isinstance(n_.ctx, ast.Store)
+                                     and index_elts(n_) and u(index_elts(n_)[0]) == counter}
+                for arr, n in sorted(by_counter.items()):
+                    if arr not in stored_at_counter and arr not in bufs:
+                        rep.bad(rule, "%s|%s read at the counter %s" % (f.key, arr, counter), "%s:%d" % (f.module.relpath, n.lineno),
+                                "`%s` is read at the output counter `%s` although nothing is ever written to it at that counter: it is an INPUT-side array (one entry per "
+                                "row of the loop over `%s`); after the first skipped row the kept row is combined with the data of an earlier input row" % (arr, counter, lv))
+                    elif arr in by_loopvar and arr not in bufs:
+                        rep.bad(rule, "%s|%s read at the counter %s" % (f.key, arr, counter), "%s:%d" % (f.module.relpath, n.lineno),
+                                "`%s` is read at the loop index `%s` (it is parallel to the input) and also at the output counter `%s`: after the first skipped row the "
+                                "kept row is combined with the data of an EARLIER input row" % (arr, lv, counter))
+                    elif arr in by_loopvar:
+                        pass
+                for arr in sorted(by_loopvar):
+                    if arr not in by_counter:
+                        rep.ok(rule, "%s|%s read at the loop index" % (f.key, arr), "%s:%d" % (f.module.relpath, by_loopvar[arr].lineno), "source array read at the loop index only")
             # stores to a sliced buffer anywhere else must also be indexed by the counter
             for b in bufs:
                 for st in iter_stmts(f.node.body):
